@@ -53,6 +53,49 @@ CHECKS = {
               "integer bin width 2P/n are used for phase_coverage. Non-integer periods are not on the lattice."),
         technique="TLA+ spec (Diagnostics) theorems model-checked with TLC; replay of TLC-enumerated patterns; trace validation by total monitor",
     ),
+    "C02": dict(
+        category="model_checking",
+        text=("TLC exhausts SamplerMC - the rejection pipeline Eval;Accept;Truncate;MapRows;Return over libraries of <=3 rows, "
+              "likelihood classes {-inf, three finite levels incl. ties}, uniform classes {0, just below, equal, just above the "
+              "ratio, ~1}, every evaluation order, max_posterior_samples, n_prior_samples, n_linear_samples (3.4M states) - against "
+              "BestSurvives, NegInfNeverKept, InEvaluationOrder, TruncationIsPrefix, OnlyFirstNPriorEvaluated. Behaviours exported "
+              "by TLC are realised on the real sampler (injecting kernel helper, scripted shuffle, uniforms placed with nextafter) "
+              "on the in-memory, object-cache and file paths and must return the specification's rows; those runs and seeded "
+              "random pass-through histories (libraries to 200/2000 rows, random batching, shuffled task execution) are validated "
+              "event by event by the SamplerTrace monitor (evaluated rows, the single parent uniform draw, exp(ll-max) > u, "
+              "front truncation, bit-identical nonlinear parameters)."),
+        design_ref="DESIGN.md section 3 C02",
+        note=("Trusted: TLC; numpy exp/nextafter (the ratio exp(ll-max) is computed by the harness from the recorded likelihoods "
+              "and only checked for sanity by the monitor); rows identified through distinct periods; likelihood classes injected "
+              "through a Python subclass of the real helper. Likelihood profiles with no finite value or with NaN are out of scope."),
+        technique="TLA+ spec (Sampler/SamplerMC) model-checked with TLC; replay of TLC-exported behaviours into the real sampler; trace validation by total monitor",
+    ),
+    "C06": dict(
+        category="model_checking",
+        text=("Same specification as C02 with the three index spaces (shuffled order, accepted positions, library rows) explicit; "
+              "SamplerMC checks LnLikeOfOwnRow exhaustively; the SamplerTrace monitor requires plain float columns, "
+              "ln_likelihood[k] = lls[good[k]], ln_prior[k] = tag of library row full[k] (tags -1000-id), one value per returned "
+              "row, and the all-logprobs array equal to the evaluated likelihoods in evaluation order, for rejection_sample and "
+              "iterative_rejection_sample, with shuffling, truncation, n_linear_samples 1..3, on the three paths."),
+        design_ref="DESIGN.md section 3 C06",
+        note="Trusted: as C02. ln_prior values are integer tags, so a value attached to the wrong row is always visible.",
+        technique="TLA+ spec (Sampler/SamplerMC) model-checked with TLC; replay of TLC-exported behaviours; trace validation by total monitor",
+    ),
+    "C05": dict(
+        category="model_checking",
+        text=("TLC exhausts PoolMC (every contiguous partition of 4 rows, 2 processes, every interleaving of task execution, posterior "
+              "draws dirtying Lambda[0], histories of 2 calls) against PureLL and InputOrder. The SamplerTrace monitor checks on "
+              "recorded histories that every kernel evaluation of a row - in memory, through the object cache, from a file, in any "
+              "batch, after any earlier evaluations or posterior draws on the same helper, after a dill round trip - equals "
+              "bit-for-bit the reference 'alone, fresh helper, in memory', that returned arrays are in input order, that draw tasks "
+              "cover the accepted rows in order, and that twin calls with equal seeds accept the same rows on every path; thorough "
+              "adds real schwimmbad.MultiPool(2,3) worker processes (likelihoods adopted from return_all_logprobs)."),
+        design_ref="DESIGN.md section 3 C05",
+        note=("Trusted: TLC; HDF5 float64 round trip (bound by C12). In worker processes evaluations are not observable; there the "
+              "returned arrays are compared with the reference. randomize_prior_order twins are excluded (the in-memory path does "
+              "not shuffle, which C05 does not forbid)."),
+        technique="TLA+ spec (PoolMC, Sampler) model-checked with TLC; trace validation of recorded call histories by total monitor",
+    ),
 }
 
 NOT_YET = "check not built yet (build in progress; see DESIGN.md section 7)"
